@@ -10,6 +10,7 @@ import (
 	"flag"
 	"fmt"
 	"io"
+	"io/fs"
 	"os"
 	"os/exec"
 	"path/filepath"
@@ -537,6 +538,7 @@ func c15(x *mon.Ctx) {
 		} else {
 			defer syscall.Close(fd)
 			_, _ = syscall.InotifyAddWatch(fd, dir, syscall.IN_OPEN)
+			watched := filepath.Base(node)
 			opens := func() int {
 				n := 0
 				buf := make([]byte, 64*1024)
@@ -548,7 +550,7 @@ func c15(x *mon.Ctx) {
 					for off := 0; off+syscall.SizeofInotifyEvent <= k; {
 						ev := (*syscall.InotifyEvent)(unsafe.Pointer(&buf[off]))
 						name := strings.TrimRight(string(buf[off+syscall.SizeofInotifyEvent:off+syscall.SizeofInotifyEvent+int(ev.Len)]), "\x00")
-						if name == filepath.Base(node) && ev.Mask&syscall.IN_OPEN != 0 {
+						if name == watched && ev.Mask&syscall.IN_OPEN != 0 {
 							n++
 						}
 						off += syscall.SizeofInotifyEvent + int(ev.Len)
@@ -590,6 +592,49 @@ func c15(x *mon.Ctx) {
 				x.Violation("provider-unsupported", "device-node-appears-later", prob, "none", hist)
 			}
 			x.Note("provider-unsupported", "device-node-appears-later", false, false, prob == "")
+			// WHY the provider is not supported is its own business: whatever error value IsSupported returns — permission,
+			// absence, interruption, timeouts, wrapped or bare — the device path is tried (a fresh node per reason, so that a
+			// handle kept from an earlier call cannot stand in for the open)
+			for ri, reason := range []error{
+				fs.ErrPermission, syscall.EACCES, syscall.EPERM, fs.ErrNotExist, syscall.ENOENT, syscall.ENODEV, syscall.ENXIO, syscall.EINTR, syscall.EAGAIN, syscall.EBUSY,
+				syscall.ENOTSUP, syscall.ENOSYS, io.EOF, io.ErrUnexpectedEOF, context.DeadlineExceeded, context.Canceled, os.ErrDeadlineExceeded, os.ErrClosed, fs.ErrInvalid, fs.ErrExist,
+				&fs.PathError{Op: "open", Path: "/sys/kernel/config/tsm/report", Err: syscall.EACCES}, &fs.PathError{Op: "mkdir", Path: "/sys/kernel/config/tsm/report/x", Err: syscall.EPERM},
+				&os.SyscallError{Syscall: "mkdir", Err: syscall.EROFS}, fmt.Errorf("configfs-tsm: %w", fs.ErrPermission), fmt.Errorf("configfs-tsm: %w", &fs.PathError{Op: "stat", Path: "/sys/kernel/config", Err: syscall.ENOENT}),
+				errors.Join(fs.ErrPermission, fs.ErrNotExist), sentinel,
+			} {
+				rnode := filepath.Join(dir, fmt.Sprintf("reason%d_tdx_guest", ri))
+				_ = os.WriteFile(rnode, []byte("x"), 0o644)
+				if err := flag.Set("tdx_guest_device_path", rnode); err != nil {
+					x.Broken("cannot set -tdx_guest_device_path: " + err.Error())
+					break
+				}
+				watched = filepath.Base(rnode)
+				opens()
+				pr := &scriptProvider{supported: reason, quote: valid, err: sentinel}
+				var rd [64]byte
+				var got []byte
+				var err error
+				pv, st := mon.Guard(func() { got, err = client.GetRawQuote(pr, rd) })
+				n := opens()
+				prob := ""
+				switch {
+				case pv != "":
+					prob = "panics: " + pv + "\n" + st
+				case pr.calls != 0:
+					prob = "an unsupported provider was asked for a quote"
+				case err == nil || got != nil:
+					prob = fmt.Sprintf("no usable device, yet %d bytes and err=%v were returned", len(got), err)
+				case n == 0:
+					prob = fmt.Sprintf("the provider reports no support (%T: %v) and the device node exists, but it was not opened (error returned: %v): the device path is not tried", reason, reason, err)
+				}
+				param := fmt.Sprintf("%d/%T/%v", ri, reason, reason)
+				if prob != "" {
+					x.Violation("provider-unsupported-for-a-reason", param, prob, "none", param)
+				}
+				x.Note("provider-unsupported-for-a-reason", param, false, false, prob == "")
+				_ = os.Remove(rnode)
+			}
+			x.Require("provider-unsupported-for-a-reason", 0, 20, 20)
 		}
 		_ = os.Remove(node)
 	}
